@@ -6,7 +6,8 @@
    Persist seq v (storage writes) and TooLong seq (too-long callbacks); a crash point is a
    prefix of it.  safe_at c log pre := for every sequence s and log entry e of s with
    base s < pos e <= (last value persisted for s within pre, or base s):
-   Deliver s (eid e) is in pre or TooLong s is in pre. *)
+   Deliver s (eid e) is in pre, or a TooLong s from to with from < pos e <= to is in pre
+   (the gap THAT callback reported). *)
 From Coq Require Import ZArith List Bool Lia.
 From TD Require Import Gen.GapCheck Model.SeqBox Model.UpdMgr Model.UpdMgrOld Proof.SeqBox Proof.UpdMgr.
 Import ListNotations.
@@ -19,10 +20,21 @@ Theorem C03_prefix_safe : forall c log ops pre post,
 Proof. exact prefix_safe. Qed.
 Print Assumptions C03_prefix_safe.
 
+(* The model's trace is in program order of the goroutine owning each sequence; the real trace
+   interleaves the main loop and the channel workers.  safe_at is a conjunction over the
+   sequences of a predicate of the per-sequence projection, so every prefix of ANY trace with
+   the same per-sequence projections (any interleaving) is safe. *)
+Theorem C03_prefix_safe_interleaved : forall c log ops tr',
+  wf_log log ->
+  (forall s, 0 <= s -> proj s tr' = proj s (mtr (mrun c log ops))) ->
+  forall pre' post', tr' = pre' ++ post' -> safe_at c log pre'.
+Proof. exact prefix_safe_interleaved. Qed.
+Print Assumptions C03_prefix_safe_interleaved.
+
 (* crash after any prefix, restart from the positions persisted in that prefix (any further
    history ops2), recover: nothing of the log up to the horizon is missing across both runs *)
 Theorem C03_restart_common : forall c log ops pre post ops2 vis,
-  wf_log log -> mtr (mrun c log ops) = pre ++ post ->
+  wf_log log -> server_ok c -> mtr (mrun c log ops) = pre ++ post ->
   forall s e, (s = 0 \/ s = 1) -> In e log -> eseq e = s -> base c s < epos e <= vis s ->
               accounted s e pre \/
               accounted s e (mtr (mrun (rebase c (fun s => persisted c s pre)) log (ops2 ++ [MTooLong vis]))).
@@ -30,7 +42,7 @@ Proof. exact restart_common_total. Qed.
 Print Assumptions C03_restart_common.
 
 Theorem C03_restart_channel : forall c log ops pre post ops2 vis s,
-  wf_log log -> 2 <= s < nseq c -> mtr (mrun c log ops) = pre ++ post ->
+  wf_log log -> server_ok c -> 2 <= s < nseq c -> mtr (mrun c log ops) = pre ++ post ->
   mtracked (mrun (rebase c (fun s => persisted c s pre)) log ops2) s = true ->
   forall e, In e log -> eseq e = s -> base c s < epos e <= vis s ->
             accounted s e pre \/
@@ -44,19 +56,19 @@ Definition vis_of (l : list Z) : Z -> Z := fun s => nth (Z.to_nat s) l 0.
 
 (* too long: [.. Persist pts 4] is a prefix in which 4 messages are covered, undelivered and
    unreported (the callback came one step later) *)
-Definition tl_cfg : config := {| nseq := 2; base := fun _ => 0; tracked0 := fun _ => true; slice_lim := 0; tl_thr := 2; cslice_lim := 0; ctl_thr := 0 |}.
+Definition tl_cfg : config := std_config 2 (fun _ => 0) (fun _ => true) 0 2 0 0.
 Definition tl_log : list entry := [E 1 0 0 1 1; E 2 0 0 2 1; E 3 0 0 3 1; E 4 0 0 4 1].
 Definition tl_ops : list mop := [MStartup (vis_of [0; 0]); MTooLong (vis_of [4; 0])].
 Theorem C03_toolong_refuted_before_repair :
-  mtr (mrun_old tl_cfg tl_log tl_ops) = [Persist 0 4; TooLong 0] /\
+  mtr (mrun_old tl_cfg tl_log tl_ops) = [Persist 0 4; TooLong 0 0 4] /\
   unsafe_atb tl_cfg tl_log [Persist 0 4] = true.
 Proof. vm_compute. split; reflexivity. Qed.
 Print Assumptions C03_toolong_refuted_before_repair.
-Example C03_toolong_repaired : mtr (mrun tl_cfg tl_log tl_ops) = [TooLong 0; Persist 0 4].
+Example C03_toolong_repaired : mtr (mrun tl_cfg tl_log tl_ops) = [TooLong 0 0 4; Persist 0 4].
 Proof. vm_compute. reflexivity. Qed.
 
 (* difference {new_messages:[1], other_updates:[2]}: pts 2 persisted, update 2 never delivered *)
-Definition w_cfg : config := {| nseq := 2; base := fun _ => 0; tracked0 := fun _ => true; slice_lim := 0; tl_thr := 0; cslice_lim := 0; ctl_thr := 0 |}.
+Definition w_cfg : config := std_config 2 (fun _ => 0) (fun _ => true) 0 0 0 0.
 Definition w_log : list entry := [E 1 0 0 1 1; E 2 1 0 2 1].
 Theorem C03_refuted_before_repair :
   let tr := mtr (mrun_old w_cfg w_log [MStartup (vis_of [0; 0]); MTooLong (vis_of [2; 0])]) in
